@@ -23,7 +23,6 @@ below -1e-12 and zeroes round-off negatives"): under A-real a flow e in [-1e-12,
 so the per-chemical clause reads  m' == e  or  (-1e-12 <= e < 0 and m' == 0)  and conservation is exact whenever no
 expected flow is negative, within 1e-12 * weight otherwise.
 """
-import itertools
 import numpy as np
 import thermosteam as tmo
 from thermosteam.exceptions import InfeasibleRegion, UndefinedChemicalAlias
@@ -50,6 +49,10 @@ W.preload([P3, P4, Q3, Q4])
 PH = ('g', 'l')
 N_ELEM = 2
 TOL = 1e-12        # the round-off threshold of Reaction.__call__ (property anchor)
+ASSUME = ['requires: balanced stoichiometry (sum_k MW_k nu_k == 0 with the database MW, sum_k F[e,k] nu_k == 0 for an abstract F >= 0)',
+          'requires: conversions in [0,1], feed flows >= 0, reactant coefficient < 0',
+          'A-L0: sparse kernels at contract level (C09)',
+          'C05-local engine adaptation: SymReal.__len__ removed (float has none), SymReal.__float__() is the identity']
 
 
 # --------------------------------------------------------------------------- specification side (the statement)
@@ -161,7 +164,7 @@ def make_program(w, cfgprog, basis, rows, mw, chems, tagged, tag='rx', unit_reac
     return {'kind': kind, 'specs': specs}, obj
 
 
-def _put(sv, i, v, symbolic):
+def _put(sv, i, v):
     """Plant a possibly-zero flow without a presence fork (contract level) / as the real code stores it (native)."""
     d = sv.dct
     if hasattr(d, 'put'): d.put(i, v)
@@ -206,7 +209,7 @@ def make_material(w, kind, pkg, tagged, name='m', values=None, pattern=None):
         for j, ID in enumerate(IDs):
             k = ((ph if tagged else None), ID)
             if pattern.get(k, pattern.get('default', 'maybe')) == 'pos': sv.dct[j] = values[k]     # known present
-            else: _put(sv, j, values[k], w.symbolic)
+            else: _put(sv, j, values[k])
 
     def read():
         out = {}
@@ -346,7 +349,36 @@ def programs(tier, tagged, pkg='P3'):
     return out
 
 
+def programs4(tier, tagged):
+    """Structures on the 4-chemical package: reactions touching 4 chemicals (every reactant), 2+2, chains of 3."""
+    a, b, c, d = P4
+    pho = (lambda ids, pat: _ph(ids, pat)) if tagged else (lambda ids, pat: None)
+    out = {}
+    for r in (P4 if tier == 'thorough' else (d,)):
+        out[f'single4[{r}]'] = {'kind': 'single', 'rxns': [_desc(P4, r, pho(P4, 'lggl'))]}
+    e1 = _desc((a, b), a, pho((a, b), 'lg'))
+    e2 = _desc((c, d), c, pho((c, d), 'gl'))
+    e3 = _desc((b, c, d), b, pho((b, c, d), 'ggl'))
+    out['parallel[a>b|c>d]'] = {'kind': 'parallel', 'rxns': [e1, e2]}
+    if tier == 'thorough':
+        out['series[a>b;b>cd;c>d]'] = {'kind': 'series', 'rxns': [e1, e3, e2]}
+        out['parallel[a>b|b>cd|c>d]'] = {'kind': 'parallel', 'rxns': [e1, e3, e2]}
+        out['system[a>b;par(b>cd|c>d)]'] = {'kind': 'system', 'members': [{'kind': 'single', 'rxns': [e1]},
+                                                                         {'kind': 'parallel', 'rxns': [e3, e2]}]}
+    return out
+
+
 # --------------------------------------------------------------------------- 1. the arithmetic kernels
+
+def _unit(tier, prog, symbolic_ok=True):
+    """Whether the reactant coefficient is pinned to -1 (leaf with nu_r == -1 assumed) instead of any negative real.
+    The division by a symbolic |nu_r| (Reaction._rescale) is what makes the VCs expensive: C05/kernel discharges it for
+    every structure with <= 2 reactions; the other groups use it where the budget allows (everywhere with <= 2
+    reactions in the thorough tier)."""
+    if _n_rxns(prog) >= 3: return True
+    if tier == 'thorough': return False
+    return not symbolic_ok
+
 
 def _n_rxns(prog):
     return sum(_n_rxns(m) for m in prog['members']) if prog['kind'] == 'system' else len(prog['rxns'])
@@ -361,10 +393,14 @@ def kernel_configs(tier):
                     continue
                 unit = _n_rxns(prog) >= 3 or 'a>b;a>bc' in pname
                 out.append({'name': f'{"tagged" if tagged else "plain"};{pname};{fn}' + (';unit' if unit else ''), 'tagged': tagged, 'prog': prog, 'fn': fn, 'unit': unit})
+        for pname, prog in programs4(tier, tagged).items():
+            unit = _n_rxns(prog) >= 3
+            out.append({'name': f'{"tagged" if tagged else "plain"};P4;{pname};_reaction' + (';unit' if unit else ''), 'tagged': tagged,
+                        'prog': prog, 'fn': '_reaction', 'unit': unit, 'rpkg': 'P4'})
     return out
 
 
-@group('C05/kernel', configs=kernel_configs, l0=True,
+@group('C05/kernel', configs=kernel_configs, l0=True, assumptions=ASSUME,
        functions=['thermosteam.reaction._reaction:Reaction._reaction', 'thermosteam.reaction._reaction:Reaction._conversion',
                   'thermosteam.reaction._reaction:Reaction._rescale', 'thermosteam.reaction._reaction:Reaction.__init__',
                   'thermosteam.reaction._reaction:ParallelReaction._reaction', 'thermosteam.reaction._reaction:ParallelReaction._conversion',
@@ -377,11 +413,13 @@ def kernel(w, cfg):
     W.reset_caches()
     w = _Scaled(w)
     tagged = cfg['tagged']
-    chems = W.thermo(P3).chemicals
-    mw = _mw(P3)
-    rows = weights(w, P3)
+    rpkg = cfg.get('rpkg', 'P3')
+    RP = PKG[rpkg]
+    chems = W.thermo(RP).chemicals
+    mw = _mw(RP)
+    rows = weights(w, RP)
     prog, obj = make_program(w, cfg['prog'], 'mol', rows, mw, chems, tagged, unit_reactant=cfg.get('unit', False))
-    mat, read, feed, _ = make_material(w, 'sv', 'P3', tagged)
+    mat, read, feed, _ = make_material(w, 'sv', rpkg, tagged)
     pre = snapshot_rxn(obj)
     expected = spec_apply(prog, feed)
     set_scale(w, prog, feed, rows, mw)
@@ -394,7 +432,7 @@ def kernel(w, cfg):
         w.ensure('material unchanged by _conversion', w.And(*[w.eq(after[k], feed[k]) for k in feed]))
         rws = conv.rows if tagged else [conv]
         phases = PH if tagged else (None,)
-        got = {(ph, ID): feed[ph, ID] + rws[i].dct.get(j, 0.) for i, ph in enumerate(phases) for j, ID in enumerate(P3)}
+        got = {(ph, ID): feed[ph, ID] + rws[i].dct.get(j, 0.) for i, ph in enumerate(phases) for j, ID in enumerate(RP)}
     for k in feed:
         w.ensure(f'flow[{k[0]},{k[1]}] = stoichiometric update', w.eq(got[k], expected[k]))
     sp0 = all_specs(prog)[0]
@@ -431,7 +469,10 @@ def call_configs(tier):
                         full = pname in ('single3[Water]', 'parallel[a>b|b>c]')
                         if not full and (mat, pkg, basis) not in (('s', 'P3', 'mol'), ('s', 'Q3', 'wt')):
                             continue
-                    unit = _n_rxns(prog) >= 2
+                        if not full and pkg == 'Q3' and pname not in ('series[a>b;b>c]', 'system[par(a>b|b>c);c>a]', 'single3[Ethanol]'):
+                            continue
+                    unit = _unit(tier, prog, symbolic_ok=(pname.startswith('single2') or (not tagged and pname == 'single3[Water]' and (mat, pkg, basis) in (
+                        ('s', 'P3', 'mol'), ('s', 'Q3', 'wt'), ('sv', 'P3', 'mol'), ('nd', 'P3', 'wt')))))
                     flows = 'sparse' if (tagged and mat == 's') or (_n_rxns(prog) >= 2 and mat in ('s', 'massview')) else 'all'
                     out.append({'name': f'{"tagged" if tagged else "plain"};{pname};{mat}:{pkg};{basis};{flows}' + (';unit' if unit else ''),
                                 'tagged': tagged, 'prog': prog, 'mat': mat, 'pkg': pkg, 'basis': basis, 'unit': unit, 'flows': flows})
@@ -442,7 +483,7 @@ def _array_units(state, mw, by_mass):
     return {k: (v * mw[k[1]] if by_mass else v) for k, v in state.items()}
 
 
-@group('C05/call', configs=call_configs, l0=True,
+@group('C05/call', configs=call_configs, l0=True, assumptions=ASSUME,
        functions=['thermosteam.reaction._reaction:Reaction.__call__', 'thermosteam.reaction._reaction:as_material_array',
                   'thermosteam.reaction._reaction:Reaction._reaction', 'thermosteam.reaction._reaction:ParallelReaction._reaction',
                   'thermosteam.reaction._reaction:SeriesReaction._reaction', 'thermosteam.reaction._reaction:ReactionSystem._reaction',
@@ -513,19 +554,22 @@ def force_configs(tier):
     out = []
     for tagged in (False, True):
         progs = programs(tier, tagged)
-        names = ['single3[Water]', 'single3[Ethanol]', 'parallel[a>b|b>c]'] if tier == 'quick' else list(progs)
-        for pname in names:
-            for mat, pkg, basis in [('s', 'P3', 'mol'), ('sv', 'P3', 'mol'), ('s', 'P3', 'wt'), ('nd', 'P3', 'mol')]:
-                if tier == 'quick' and (pname != 'single3[Water]' and (mat, basis) != ('s', 'mol')):
-                    continue
-                unit = _n_rxns(progs[pname]) >= 2
-                flows = 'sparse' if mat == 's' and (tagged or basis == 'wt' or unit) else 'all'
-                out.append({'name': f'{"tagged" if tagged else "plain"};{pname};{mat}:{pkg};{basis};{flows}' + (';unit' if unit else ''),
-                            'tagged': tagged, 'prog': progs[pname], 'mat': mat, 'pkg': pkg, 'basis': basis, 'unit': unit, 'flows': flows})
+        if tier == 'quick':
+            sel = [('single3[Water]', 's', 'mol'), ('single3[Water]', 'sv', 'mol'), ('single3[Water]', 'nd', 'mol'),
+                   ('single2[Water>Ethanol]', 's', 'wt'), ('single3[Ethanol]', 's', 'mol'), ('parallel[a>b|b>c]', 's', 'mol'),
+                   ('parallel[a>b|b>c]', 'sv', 'mol')]
+        else:
+            sel = [(pn, m, b) for pn in progs for m, b in (('s', 'mol'), ('sv', 'mol'), ('s', 'wt'), ('nd', 'mol'))]
+        for pname, mat, basis in sel:
+            prog = progs[pname]
+            unit = _unit(tier, prog, symbolic_ok=(pname.startswith('single2') or (not tagged and (pname, mat) == ('single3[Water]', 's'))))
+            flows = 'sparse' if (tagged or (mat == 's' and (basis == 'wt' or _n_rxns(prog) >= 2))) else 'all'
+            out.append({'name': f'{"tagged" if tagged else "plain"};{pname};{mat}:P3;{basis};{flows}' + (';unit' if unit else ''),
+                        'tagged': tagged, 'prog': prog, 'mat': mat, 'pkg': 'P3', 'basis': basis, 'unit': unit, 'flows': flows})
     return out
 
 
-@group('C05/force_reaction', configs=force_configs, l0=True,
+@group('C05/force_reaction', configs=force_configs, l0=True, assumptions=ASSUME,
        functions=['thermosteam.reaction._reaction:Reaction.force_reaction', 'thermosteam.functional:remove_negligible_negative_values',
                   'thermosteam.reaction._reaction:as_material_array'])
 def force_reaction(w, cfg):
@@ -586,7 +630,7 @@ def basis_configs(tier):
                             continue
                         if tier == 'quick' and how == 'setter' and direction == 'wt->mol':
                             continue
-                        unit = _n_rxns(prog) >= 2
+                        unit = _unit(tier, prog, symbolic_ok=pname.startswith('single2'))
                         out.append({'name': f'{"tagged" if tagged else "plain"};{pname};{how};{direction};{pkg}' + (';unit' if unit else ''),
                                     'tagged': tagged, 'prog': prog, 'how': how, 'dir': direction, 'pkg': pkg, 'unit': unit})
     return out
@@ -603,7 +647,7 @@ def _rebase(obj, basis, how):
     return obj.copy(basis)
 
 
-@group('C05/basis', configs=basis_configs, l0=True,
+@group('C05/basis', configs=basis_configs, l0=True, assumptions=ASSUME,
        functions=['thermosteam.reaction._reaction:set_reaction_basis', 'thermosteam.reaction._reaction:Reaction.copy',
                   'thermosteam.reaction._reaction:Reaction.basis', 'thermosteam.reaction._reaction:as_material_array',
                   'thermosteam.reaction._reaction:Reaction._rescale', 'thermosteam.reaction._reaction:ReactionSet._rescale',
@@ -673,7 +717,7 @@ def parse_configs(tier):
     return [{'name': f'case{n}: {t[0]}', 'case': n} for n, t in enumerate(PARSE_CASES)]
 
 
-@group('C05/parse', configs=parse_configs, l0=True,
+@group('C05/parse', configs=parse_configs, l0=True, assumptions=ASSUME,
        functions=['thermosteam.reaction._parse:get_stoichiometric_array', 'thermosteam.reaction._parse:str2dct',
                   'thermosteam.reaction._xparse:get_stoichiometric_array', 'thermosteam.reaction._xparse:str2dct',
                   'thermosteam.reaction._xparse:get_phases', 'thermosteam.reaction._reaction:Reaction.__init__',
@@ -734,7 +778,7 @@ def reset_configs(tier):
     return out
 
 
-@group('C05/reset_chemicals', configs=reset_configs, l0=True,
+@group('C05/reset_chemicals', configs=reset_configs, l0=True, assumptions=ASSUME,
        functions=['thermosteam.reaction._reaction:Reaction.reset_chemicals', 'thermosteam.reaction._reaction:Reaction.__call__'])
 def reset_chemicals(w, cfg):
     """A reaction moved to another package (reordered superset) still is the same reaction, chemical by chemical."""
@@ -777,11 +821,11 @@ def multiphase_configs(tier):
         for basis in ('mol', 'wt'):
             if tier == 'quick' and basis == 'wt' and pname != 'single3[Water]': continue
             prog = programs(tier, False)[pname]
-            out.append({'name': f'{pname};{basis}', 'prog': prog, 'basis': basis, 'unit': _n_rxns(prog) >= 2})
+            out.append({'name': f'{pname};{basis}', 'prog': prog, 'basis': basis, 'unit': _unit(tier, prog, symbolic_ok=False)})
     return out
 
 
-@group('C05/phaseless_on_multistream', configs=multiphase_configs, l0=True,
+@group('C05/phaseless_on_multistream', configs=multiphase_configs, l0=True, assumptions=ASSUME,
        functions=['thermosteam.reaction._reaction:as_material_array', 'thermosteam.reaction._reaction:Reaction.__call__'])
 def phaseless_on_multistream(w, cfg):
     """A reaction without phases is documented for single-phase streams.  Handed a MultiStream it may refuse (ValueError);
